@@ -69,6 +69,10 @@ def run(ctx):
                "Backoff::increment row `%s` leaves value = %s which is not bounded by config.max_value (the clamp only "
                "happens on the *next* call): the delay overshoots the configured maximum" % (case, why), site=b.loc(),
                key="C28.1:unclamped:value%smax" % (entry or "?"))
+        ctx.ob("C28.2", "every row consults the reset interval:value%smax" % (entry or "?"), el is not None,
+               "Backoff::increment row `%s` returns without comparing the elapsed time with reset_after: when the value is "
+               "in this state the backoff never returns to initial_value, however long the node waited" % case, site=b.loc(),
+               key="C28.2:reset-check-skipped:value%smax" % (entry or "?"))
         if el in (">", "="):
             ctx.ob("C28.2", "reset interval elapsed => value returns to initial_value", v is not None and v.expr() == INIT,
                    "row `%s` ends with value = %s" % (case, v.expr() if v is not None else "unchanged"), site=b.loc(),
